@@ -5,18 +5,6 @@ import GuppyVerif.Lemmas.C12Sound
     and one of its rank functions — the sum of the maximal ranks of both sides, then the sum of sizes). -/
 namespace GuppyVerif.Unify
 
-mutual
-def Tm.size : Tm → Nat
-  | .var _ => 1
-  | .atom _ => 1
-  | .node _ as => 1 + sizeList as
-  | .targ t => 1 + t.size
-  | .carg c => 1 + c.size
-def sizeList : List Tm → Nat
-  | [] => 0
-  | a :: as => a.size + sizeList as
-end
-
 theorem size_le_sizeList {a : Tm} {as : List Tm} (h : a ∈ as) : a.size ≤ sizeList as := by
   induction as with
   | nil => cases h
